@@ -77,7 +77,7 @@ $(foreach v,$(VARIANTS),$(eval $(call VARIANT_RULES,$(v))))
 # the scheduler TU is never instrumented (raw futex hand-offs must stay invisible to TSan)
 $(B)/sched/eng/sched/sched.o $(B)/schedp/eng/sched/sched.o $(B)/tsan/eng/sched/sched.o: $(V)/engines/sched/sched.cpp
 	@mkdir -p $(dir $@)
-	$(CXX) -std=c++14 -g -O1 -w -fno-omit-frame-pointer $(if $(findstring /tsan/,$@),-DVERIF_TSAN,) -I$(V)/engines -MMD -MP -c $< -o $@
+	$(CXX) -std=c++14 -g -O1 -w -fno-omit-frame-pointer $(if $(findstring /tsan/,$@),-DVERIF_TSAN,) $(if $(findstring /schedp/,$@),-DVERIF_POOL,) -I$(V)/engines -MMD -MP -c $< -o $@
 
 # ---- f8c from the tree's compiler sources (plain variant)
 $(B)/f8c/%.o: $(REPO)/compiler/%.cpp
